@@ -66,6 +66,8 @@ type Machine struct {
 	StoppedOnUndefined bool
 
 	DisplayCleanups int
+	SlowSerial      bool // coroutine mode: the serial writer blocks (yields to the scheduler) before consuming its argument
+	SerialParks     int
 	DoneCalls       int // number of times Run evaluated ctx.Done()
 
 	SerialOut []byte
@@ -125,12 +127,14 @@ func (c *SimContext) EndCycle(gb *gameboy.Gameboy, mtick int) {
 		panic(stopSentinel{})
 	}
 	if co := m.co; co != nil && m.N >= co.stopAt {
+		co.running = false
 		co.parked <- false
 		k, ok := <-co.resume
 		if !ok {
 			// abandoned: end the goroutine
 			panic(stopSentinel{})
 		}
+		co.running = true
 		co.stopAt = m.N + k
 	}
 }
@@ -171,6 +175,21 @@ func (h dispHandler) Cleanup() { h.m.DisplayCleanups++ }
 type serialRec struct{ m *Machine }
 
 func (s serialRec) Write(p []byte) (int, error) {
+	if co := s.m.co; co != nil && co.running && s.m.SlowSerial {
+		// a slow consumer: the instance blocks inside Write (before p has been consumed) and the
+		// scheduler decides who runs meanwhile; p is read only after the instance is resumed
+		s.m.SerialParks++
+		co.inWriter = true
+		co.running = false
+		co.parked <- false
+		k, ok := <-co.resume
+		if !ok {
+			panic(stopSentinel{})
+		}
+		co.running = true
+		co.inWriter = false
+		co.stopAt = s.m.N + k
+	}
 	for _, b := range p {
 		s.m.SerialOut = append(s.m.SerialOut, b)
 		s.m.SerialAt = append(s.m.SerialAt, s.m.N)
@@ -448,6 +467,8 @@ func (m *Machine) Park() {
 
 type coState struct {
 	abandoned bool
+	running   bool // the instance's goroutine holds the token
+	inWriter  bool // parked inside the serial writer (not at a cycle boundary)
 	resume    chan uint64
 	parked    chan bool // true: finished
 	stopAt    uint64
@@ -465,7 +486,9 @@ func (m *Machine) StartCo(frames int) {
 			return
 		}
 		co.stopAt = m.N + k
+		co.running = true
 		co.Panic = Protect(func() { m.RunFrames(frames) })
+		co.running = false
 		if co.abandoned {
 			return
 		}
@@ -484,6 +507,9 @@ func (m *Machine) Resume(k uint64) bool {
 	co.resume <- k
 	return <-co.parked
 }
+
+// InWriter reports whether the instance is parked inside its serial writer.
+func (m *Machine) InWriter() bool { return m.co != nil && m.co.inWriter }
 
 // CoPanic returns the panic that ended the coroutine, if any.
 func (m *Machine) CoPanic() *PanicInfo {
